@@ -125,6 +125,8 @@ func c17(c *Ctx) (*report.Result, error) {
 					switch {
 					case r == ssa.Value(delegate):
 						res.Hold("O17.1", construct, instrPos(c.Prog, ret), "returns the delegate's error value unchanged")
+					case flow.IsNilConst(r) && guardedErrNil(b, ssa.Value(delegate)):
+						res.Hold("O17.1", construct, instrPos(c.Prog, ret), "nil because the standard codec succeeded")
 					case flow.IsNilConst(r):
 						res.Check(repErr != nil && guardedErrNil(b, repErr), "O17.1", construct, instrPos(c.Prog, ret), "nil only after the repair succeeded", "nil is returned although the repair did not succeed: a message the codec could not decode is passed on")
 					default:
